@@ -1167,7 +1167,16 @@ func (x *Exec) step(s *State, fr *Frame, in ssa.Instruction) error {
 	case *ssa.Next:
 		return x.next(s, fr, in)
 	case *ssa.Go:
-		return &abortPath{"go statement in " + x.fnName(fr.fn)}
+		// the spawned goroutine is not followed; from here on it may run at any time, so everything
+		// it could write is unknown (all heap components are havoc'd). Lock state is per goroutine.
+		for k := range x.heapSorts {
+			x.heapHavoc(s, k)
+		}
+		na := Var(x.eng.fresh("alloc"), SInt)
+		s.assume(ILe(s.alloc, na))
+		s.alloc = na
+		x.eng.warn("go statement in %s: the spawned goroutine is abstracted (heap havoc)", x.fnName(fr.fn))
+		return nil
 	case *ssa.Select:
 		// channel readiness is not modelled: any listed case (or the default) may be chosen and
 		// received values are arbitrary well-typed values
@@ -1189,8 +1198,15 @@ func (x *Exec) step(s *State, fr *Frame, in ssa.Instruction) error {
 		fr.vals[in] = Val{Tup: tup, GoT: in.Type()}
 		x.eng.warn("select statement in %s: channel readiness abstracted (any case may fire)", x.fnName(fr.fn))
 		return nil
+	case *ssa.MakeChan:
+		// channels are opaque references: contents and readiness are not modelled (see Select)
+		fr.vals[in] = tv(x.allocRef(s, "chan$"+in.Name()), in.Type())
+		return nil
 	case *ssa.Send:
-		return &abortPath{"channel operation in " + x.fnName(fr.fn)}
+		// a send only hands a value to another goroutine: nothing of this goroutine's state changes
+		// (blocking / liveness is not modelled)
+		x.eng.warn("channel send in %s abstracted", x.fnName(fr.fn))
+		return nil
 	case *ssa.SliceToArrayPointer:
 		return fmt.Errorf("slice to array pointer")
 	}
